@@ -78,7 +78,7 @@ pub fn check(c: &Case) -> Result<Vec<&'static str>, Failure> {
     //  * with p = (index of '^') - (COL - 1): the shown line from p on is the source line (modulo trailing white space,
     //    which the code trims), i.e. the caret stands under character COL of the printed line.
     let lines: Vec<&str> = plain.split('\n').collect();
-    let is_gutter_char = |ch: char| ch == ' ' || ch == '|' || ch == ':' || ch == '-' || ch == '=' || ch == '>' || ch == '.' || ch.is_ascii_digit();
+    let is_gutter_char = |ch: char| ch == ' ' || ch == '\t' || ch == '|' || ch == ':' || ch == '-' || ch == '=' || ch == '>' || ch == '.' || ch.is_ascii_digit();
     // (the last such line: the printed source line itself may look like a caret line)
     let caret_idx = (1..lines.len()).rev().find(|i| lines[*i].matches('^').count() == 1 && lines[*i].chars().all(|ch| ch == '^' || is_gutter_char(ch)));
     let ci = match caret_idx {
